@@ -27,6 +27,13 @@ example : demoCheck = true := by decide +kernel
 example : (demoVocab.map (·.2)).Nodup := by decide +kernel
 example : Tiles [(0, 2), (2, 3)] 0 3 := ⟨rfl, by omega, rfl, by omega, rfl⟩
 example : MapMono (some [0, 0, 2]) := mapMono_some _ (by decide)
+/-- `str::get` refuses a range that cuts "ö" = `C3 B6` in the middle (Rust returns `None`). -/
+example : tokenTexts [0xC3, 0xB6] [0, 1, 2] = [none, none] ∧
+    tokenTexts [0xC3, 0xB6, 0x78] [0, 2, 3] = [some [0xC3, 0xB6], some [0x78]] := by decide
+/-- The hypothesis `hadd` of T2/T3 with a non-empty `added_tokens` map: id 50256 is not a
+vocabulary id of `demoVocab`. -/
+example : ∀ e ∈ demoVocab, ([(50256, [60, 124, 62])] : List (Nat × List Nat)).lookup e.2 = none := by
+  decide +kernel
 
 /-- **Witness (outside T2): an end-of-word suffix does not round-trip.**  A CLIP-style
 tokenizer (`end_of_word_suffix = "</w>"`, byte token ids `b`, end-of-word byte tokens `256 + b`;
